@@ -207,7 +207,7 @@ func genElem(r *core.Rng, sc scope, depth int, cfg *gcfg) *gnode {
 			default:
 				if cfg.wild {
 					n.ch = append(n.ch, &gnode{kind: 3, target: pick(r, []string{"pi", "xml-stylesheet", "t"}),
-						data: strings.ReplaceAll(strings.TrimLeft(genText(r, false), " \t\r\n"), "?>", "? >")})
+						data: strings.ReplaceAll(strings.ReplaceAll(strings.TrimLeft(genText(r, false), " \t\r\n"), "?>", "? >"), "\r", "")})
 				}
 			}
 		}
